@@ -507,6 +507,15 @@ impl ISocket for DealerSocket {
     if !self.core.is_running() {
       return Err(ZmqError::InvalidState("Socket is closing".into()));
     }
+    // A message partly consumed by recv() comes first: hand out its remaining frames instead of
+    // skipping ahead to the next message (which would tear the half-read one apart).
+    if let Some(rest) = self.frame_recv_buffer.lock().take() {
+      if !rest.is_empty() {
+        let mut batch = FrameBatch::with_capacity(rest.len());
+        batch.extend(rest);
+        return Ok(batch);
+      }
+    }
     let rcvtimeo_opt: Option<Duration> = self.core.core_state.read().options.rcvtimeo;
     let (_, batch) = self.ingress_engine.recv_logical_message(rcvtimeo_opt).await?;
     self.process_incoming_zmtp_message_for_dealer(0, batch)
